@@ -13,7 +13,9 @@ import (
 	"time"
 
 	"github.com/ipni/go-libipni/dagsync"
+	"github.com/libp2p/go-libp2p/core/peer"
 
+	"verifharness/fixture"
 	"verifharness/sched"
 	"verifharness/schedfx"
 	"verifharness/syncfx"
@@ -415,6 +417,46 @@ func entriesOfHandlerlessPublisher(other string) *sched.Scenario {
 	}
 }
 
+// ---- S10: an allow filter that rejects one peer: that peer announces the
+// publisher's new head first (rejected), then the publisher announces it
+// itself (two threads, any order): the head is synced
+func rejectedThenAllowed() *sched.Scenario {
+	name := "S10-head-announced-by-a-rejected-peer-and-by-the-publisher"
+	denied := fixture.Key("ed25519", 77).ID
+	return &sched.Scenario{
+		Name: name,
+		Setup: func(e *sched.Exec) ([]sched.Thread, func()) {
+			w := schedfx.New(e, schedfx.Options{Pubs: 1, ChainLen: 3, Announce: true, AllowPeer: func(p peer.ID) bool { return p != denied }})
+			p, ch := w.Pubs[0], w.Chains[0]
+			threads := []sched.Thread{
+				{Name: "B", Fn: func() {
+					e.Log("B announce pub0[2] as a rejected peer")
+					if err := w.Sub.Announce(context.Background(), ch.Cids[2], peer.AddrInfo{ID: denied, Addrs: p.AddrInfo().Addrs}); err != nil {
+						e.Log("B announce-error %v", err)
+					}
+				}},
+				{Name: "A", Fn: func() {
+					e.Log("A announce pub0[2]")
+					if err := w.Sub.Announce(context.Background(), ch.Cids[2], p.AddrInfo()); err != nil {
+						e.Log("A announce-error %v", err)
+					}
+				}},
+			}
+			return threads, finish(e, w)
+		},
+		Check: func(e *sched.Exec) []sched.Finding {
+			out := basicFindings(e, name)
+			f, _ := e.Data.(*final)
+			if f == nil || len(out) > 0 {
+				return out
+			}
+			lv := schedfx.ParseLog(e.Obs())
+			out = append(out, perPublisher(name, 0, lv, f, 2, false)...)
+			return out
+		},
+	}
+}
+
 // ---- S5: two explicit syncs with different scoped hooks
 func scoped() *sched.Scenario {
 	name := "S5-scoped-hooks"
@@ -477,7 +519,7 @@ func scoped() *sched.Scenario {
 
 func TestCheck(t *testing.T) {
 	r := vp.New("C08", "model_checking",
-		"scenarios over the real subscriber built with the instrumentation overlay (gated in-memory publishers, chains of 3-4 signed ads, first ad pre-synced): S1 burst of 3 announcements to one publisher; S2 the same with a failing block request; S3 k publishers x 2 announcements with MaxAsyncConcurrency unset/1/2; S4 announcements plus an explicit sync (queried head) of the same publisher; S5 two explicit syncs of one publisher with different scoped hooks; S8 the burst of S1 under MaxAsyncConcurrency(2), i.e. with free slots; S9 an entries sync of a publisher whose handler was removed overlapping an announcement / an explicit sync of that publisher. All interleavings of harness threads, library goroutines (watcher, per-announcement handler, distributor), publisher requests and hook calls at the scheduling points (every lock, atomic, channel operation, select, spawn, request, hook call, observation) up to the preemption bound. states = distinct decision states; transitions = scheduling steps; traces = executions of the real code.",
+		"scenarios over the real subscriber built with the instrumentation overlay (gated in-memory publishers, chains of 3-4 signed ads, first ad pre-synced): S1 burst of 3 announcements to one publisher; S2 the same with a failing block request; S3 k publishers x 2 announcements with MaxAsyncConcurrency unset/1/2; S4 announcements plus an explicit sync (queried head) of the same publisher; S5 two explicit syncs of one publisher with different scoped hooks; S8 the burst of S1 under MaxAsyncConcurrency(2), i.e. with free slots; S9 an entries sync of a publisher whose handler was removed overlapping an announcement / an explicit sync of that publisher; S10 an allow filter rejecting one peer, which announces the publisher's new head before / after the publisher does. All interleavings of harness threads, library goroutines (watcher, per-announcement handler, distributor), publisher requests and hook calls at the scheduling points (every lock, atomic, channel operation, select, spawn, request, hook call, observation) up to the preemption bound. states = distinct decision states; transitions = scheduling steps; traces = executions of the real code.",
 		"cooperative scheduling at synchronization operations; select statements try cases in source order; bursts of 3 announcements, at most 3 publishers",
 		"discovery requests are made in a free-running warm-up sync before the explored part",
 	)
@@ -491,7 +533,7 @@ func TestCheck(t *testing.T) {
 	// S8: the burst of S1 under a limit of concurrent announce-triggered syncs
 	// that leaves slots free (one publisher, limit 2): announcements of one
 	// publisher are handled one after the other whatever the limit is
-	scs := []*sched.Scenario{burstOf("S6b-reannounce-synced-head-then-one-new", -1, []int{0, 1}), burstOf("S6-reannounce-synced-head-then-new", -1, []int{0, 1, 2}), multiOf(3, 1, 1, true), burst("S1-burst", -1), burstOf("S8-burst-limit2", -1, []int{1, 2, 3}, dagsync.MaxAsyncConcurrency(2)), multi(2, 0), multi(2, 1), mixed(), scoped(), entriesOfHandlerlessPublisher("announce"), entriesOfHandlerlessPublisher("explicit")}
+	scs := []*sched.Scenario{burstOf("S6b-reannounce-synced-head-then-one-new", -1, []int{0, 1}), burstOf("S6-reannounce-synced-head-then-new", -1, []int{0, 1, 2}), multiOf(3, 1, 1, true), burst("S1-burst", -1), burstOf("S8-burst-limit2", -1, []int{1, 2, 3}, dagsync.MaxAsyncConcurrency(2)), multi(2, 0), multi(2, 1), mixed(), scoped(), entriesOfHandlerlessPublisher("announce"), entriesOfHandlerlessPublisher("explicit"), rejectedThenAllowed()}
 	if thorough {
 		scs = append(scs, burst("S2-burst-failing-request", 2), multi(2, 2), multi(3, 1), multi(3, 2))
 	}
